@@ -621,9 +621,8 @@ variable (cfg : Params α)
 theorem infl_getIoCostCum (w : World) (p : RPath) : Infl (getIoCostCum cfg w p) :=
   infl_memo _ _ (infl_bind (infl_getPrim w _ _) fun _ => infl_bind (infl_pure _) fun _ => infl_pure _)
 
-theorem infl_getPgScanCum (w : World) (p : RPath) : Infl (getPgScanCum (α := α) w p) := by
-  refine infl_memo _ _ (infl_bind (infl_getPrim w _ _) fun _ => infl_bind (infl_pure _) fun m => ?_)
-  cases kvLookup m pgscanKey <;> exact infl_pure _
+theorem infl_getPgScanCum (w : World) (p : RPath) : Infl (getPgScanCum (α := α) w p) :=
+  infl_memo _ _ (infl_bind (infl_getPrim w _ _) fun _ => infl_bind (infl_pure _) fun _ => infl_pure _)
 
 theorem infl_getAverageUsage (w : World) (p : RPath) : Infl (getAverageUsage cfg w p) :=
   infl_memo _ _ (infl_bindInt (infl_getPrim w _ _) fun _ => infl_read _)
@@ -647,9 +646,8 @@ theorem infl_getField (w : World) (p : RPath) (f : Field) : Infl (getField cfg w
     | exact infl_getIoCostRate cfg w p
     | exact infl_getPgScanRate w p
 
-theorem infl_statKey (w : World) (p : RPath) (key : String) : Infl (statKey (α := α) w p key) := by
-  refine infl_bind (infl_getPrim w _ _) fun _ => infl_bind (infl_pure _) fun m => ?_
-  cases kvLookup m (s key) <;> exact infl_pure _
+theorem infl_statKey (w : World) (p : RPath) (key : String) : Infl (statKey (α := α) w p key) :=
+  infl_bind (infl_getPrim w _ _) fun _ => infl_bind (infl_pure _) fun _ => infl_pure _
 
 /-- every public accessor only extends the cache, whatever the world looks like when it is called -/
 theorem infl_getAcc (w : World) (p : RPath) (a : Acc) : Infl (getAcc cfg w p a) := by
@@ -682,5 +680,709 @@ theorem getField_cached (w : World) (p : RPath) (f : Field) (st : OSt α) (v : V
   all_goals exact memo_cached _ _ _ st v h
 
 end Cache
+
+/-! ## the cache machine computes the reference
+
+`Coh e st` : everything the state has cached is what the stateless reference says about the world
+`e.w` (with the system context `e.sys` and the archives `e.arch`).  The state right after
+`refresh` is coherent with whatever the world has become; every getter keeps coherence and returns
+the reference value. -/
+
+section Sound
+variable {α : Type} [Num α]
+
+structure Coh (e : RefEnv α) (st : OSt α) : Prop where
+  sys : st.sys = e.sys
+  ctx : ∀ p c, st.ctxs p = some c →
+    e.w.openDir p = some c.dir ∧ c.arch = e.arch p ∧ ∀ f v, c.data f = some v → refField e p f = .ok v
+  fresh : ∀ p, st.ctxs p = none → e.arch p = Arch.empty
+
+def Has (st : OSt α) (p : RPath) : Prop := ∃ c, st.ctxs p = some c
+
+theorem has_of_le {st st' : OSt α} (h : Le st st') {p : RPath} (hp : Has st p) : Has st' p := by
+  obtain ⟨c, hc⟩ := hp
+  obtain ⟨c', hc', _⟩ := h.2 p c hc
+  exact ⟨c', hc'⟩
+
+/-- under coherence and given the contexts `need`, the action returns `r`, keeps coherence, only extends
+the state, and (when it succeeds) the contexts `gives` exist afterwards -/
+def Triple {β : Type} (e : RefEnv α) (need : List RPath) (a : Act α β) (r : Res β) (gives : List RPath) : Prop :=
+  ∀ st, Coh e st → (∀ q ∈ need, Has st q) →
+    (a st).1 = r ∧ Coh e (a st).2 ∧ Le st (a st).2 ∧ (∀ b, r = .ok b → ∀ q ∈ gives, Has (a st).2 q)
+
+theorem Triple.pure {β : Type} (e : RefEnv α) (need : List RPath) (r : Res β) :
+    Triple e need (Act.pure r) r [] :=
+  fun st hc _ => ⟨rfl, hc, Le.refl st, fun _ _ q hq => by simp at hq⟩
+
+theorem Triple.read {β : Type} (e : RefEnv α) (need : List RPath) (f : OSt α → Res β) (r : Res β)
+    (h : ∀ st, Coh e st → (∀ q ∈ need, Has st q) → f st = r) : Triple e need (Act.read f) r [] :=
+  fun st hc hn => ⟨h st hc hn, hc, Le.refl st, fun _ _ q hq => by simp at hq⟩
+
+theorem Triple.bind {β γ : Type} {e : RefEnv α} {need gives gives' : List RPath} {a : Act α β}
+    {k : β → Act α γ} {ra : Res β} {rk : β → Res γ}
+    (ha : Triple e need a ra gives)
+    (hk : ∀ b, ra = .ok b → Triple e (gives ++ need) (k b) (rk b) gives') :
+    Triple e need (a.bind k) (ra.bind rk) gives' := by
+  intro st hc hn
+  obtain ⟨h1, h2, h3, h4⟩ := ha st hc hn
+  unfold Act.bind
+  cases hr : a st with
+  | mk r st1 =>
+    rw [hr] at h1 h2 h3 h4
+    simp only at h1 h2 h3 h4
+    subst h1
+    cases r with
+    | ok b =>
+      have hn1 : ∀ q ∈ gives ++ need, Has st1 q := by
+        intro q hq
+        rcases List.mem_append.1 hq with hq | hq
+        · exact h4 b rfl q hq
+        · exact has_of_le h3 (hn q hq)
+      obtain ⟨k1, k2, k3, k4⟩ := hk b rfl st1 h2 hn1
+      exact ⟨by simpa [Res.bind] using k1, k2, Le.trans h3 k3, by simpa [Res.bind] using k4⟩
+    | unavailable => exact ⟨rfl, h2, h3, fun b hb => by simp [Res.bind] at hb⟩
+    | crash c => exact ⟨rfl, h2, h3, fun b hb => by simp [Res.bind] at hb⟩
+
+theorem Triple.weaken {β : Type} {e : RefEnv α} {need need' gives : List RPath} {a : Act α β} {r : Res β}
+    (h : Triple e need a r gives) (hsub : ∀ q ∈ need, q ∈ need') : Triple e need' a r [] :=
+  fun st hc hn =>
+    let ⟨h1, h2, h3, _⟩ := h st hc (fun q hq => hn q (hsub q hq))
+    ⟨h1, h2, h3, fun _ _ q hq => by simp at hq⟩
+
+theorem Triple.congr {β : Type} {e : RefEnv α} {need gives : List RPath} {a : Act α β} {r r' : Res β}
+    (h : Triple e need a r gives) (hr : r = r') : Triple e need a r' gives := hr ▸ h
+
+theorem Triple.getD {β : Type} {e : RefEnv α} {need gives : List RPath} {a : Act α β} {r : Res β} (d : β)
+    (h : Triple e need a r gives) : Triple e need (a.getD d) (Res.getD' r d) [] := by
+  intro st hc hn
+  obtain ⟨h1, h2, h3, _⟩ := h st hc hn
+  unfold Act.getD
+  cases hr : a st with
+  | mk r1 st1 =>
+    rw [hr] at h1 h2 h3
+    simp only at h1 h2 h3
+    subst h1
+    cases r1 <;> exact ⟨rfl, h2, h3, fun _ _ q hq => by simp at hq⟩
+
+theorem coh_setField {e : RefEnv α} {st : OSt α} (hc : Coh e st) (p : RPath) (f : Field) (v : Val α)
+    (hv : refField e p f = .ok v) : Coh e (setField st p f v) := by
+  refine ⟨hc.sys, ?_, ?_⟩
+  · intro q c hq
+    by_cases e1 : q = p
+    · subst e1
+      simp only [setField, if_true] at hq
+      cases hctx : st.ctxs q with
+      | none => simp [hctx] at hq
+      | some c0 =>
+        simp only [hctx, Option.map_some] at hq
+        injection hq with hq
+        subst hq
+        obtain ⟨h1, h2, h3⟩ := hc.ctx q c0 hctx
+        refine ⟨h1, h2, ?_⟩
+        intro g x hg
+        by_cases eg : g = f
+        · subst eg
+          simp only [if_true] at hg
+          injection hg with hg
+          subst hg
+          exact hv
+        · simp only [eg, if_false] at hg
+          exact h3 g x hg
+    · simp only [setField, e1, if_false] at hq
+      exact hc.ctx q c hq
+  · intro q hq
+    by_cases e1 : q = p
+    · subst e1
+      simp only [setField, if_true] at hq
+      cases hctx : st.ctxs q with
+      | none => exact hc.fresh q hctx
+      | some c0 => simp [hctx] at hq
+    · simp only [setField, e1, if_false] at hq
+      exact hc.fresh q hq
+
+/-- the `PROXY` macro around a computation of the reference value is the reference value -/
+theorem Triple.memo {e : RefEnv α} {need gives : List RPath} {compute : Act α (Val α)} {r : Res (Val α)}
+    (p : RPath) (f : Field) (h : Triple e need compute r gives) (hr : refField e p f = r) :
+    Triple e need (memo p f compute) r [] := by
+  intro st hc hn
+  unfold OomdModel.CgStats.memo
+  cases hcache : cached st p f with
+  | some v =>
+    have : r = .ok v := by
+      unfold cached at hcache
+      cases hp : st.ctxs p with
+      | none => simp [hp] at hcache
+      | some c =>
+        simp only [hp, Option.bind_some] at hcache
+        rw [← hr]; exact (hc.ctx p c hp).2.2 f v hcache
+    exact ⟨this.symm, hc, Le.refl st, fun _ _ q hq => by simp at hq⟩
+  | none =>
+    obtain ⟨h1, h2, h3, _⟩ := h st hc hn
+    cases hres : compute st with
+    | mk r1 st1 =>
+      rw [hres] at h1 h2 h3
+      simp only at h1 h2 h3
+      subst h1
+      cases r1 with
+      | ok v =>
+        exact ⟨rfl, coh_setField h2 p f v hr, le_setField st st1 p f v h3 hcache, fun _ _ q hq => by simp at hq⟩
+      | unavailable => exact ⟨rfl, h2, h3, fun _ _ q hq => by simp at hq⟩
+      | crash c => exact ⟨rfl, h2, h3, fun _ _ q hq => by simp at hq⟩
+
+/-- `addToCacheAndGet`: succeeds exactly when the directory can be opened; the context exists afterwards -/
+theorem Triple.addToCache (e : RefEnv α) (p : RPath) :
+    Triple e [] (addToCache (α := α) e.w p) (refOpen e p) [p] := by
+  intro st hc _
+  unfold OomdModel.CgStats.addToCache refOpen
+  cases hp : st.ctxs p with
+  | some c =>
+    have ho := (hc.ctx p c hp).1
+    refine ⟨by simp [ho], hc, Le.refl st, ?_⟩
+    intro _ _ q hq
+    simp at hq
+    subst hq
+    exact ⟨c, hp⟩
+  | none =>
+    cases ho : e.w.openDir p with
+    | none => exact ⟨rfl, hc, Le.refl st, fun b hb => by simp at hb⟩
+    | some inc =>
+      refine ⟨rfl, ⟨hc.sys, ?_, ?_⟩, ?_, ?_⟩
+      · intro q c hq
+        by_cases e1 : q = p
+        · subst e1
+          simp only [if_true] at hq
+          injection hq with hq
+          subst hq
+          exact ⟨ho, (hc.fresh q hp).symm, fun f v hv => by simp at hv⟩
+        · simp only [e1, if_false] at hq
+          exact hc.ctx q c hq
+      · intro q hq
+        by_cases e1 : q = p
+        · subst e1; simp at hq
+        · simp only [e1, if_false] at hq
+          exact hc.fresh q hq
+      · have := infl_addToCache (α := α) e.w p st
+        simpa [OomdModel.CgStats.addToCache, hp, ho] using this
+      · intro _ _ q hq
+        simp at hq
+        subst hq
+        exact ⟨{ dir := inc, data := fun _ => none, arch := Arch.empty }, by simp⟩
+
+theorem Res.bind_assoc {β γ δ : Type} (r : Res β) (f : β → Res γ) (g : γ → Res δ) :
+    (r.bind f).bind g = r.bind fun a => (f a).bind g := by
+  cases r <;> rfl
+
+theorem Res.map_def {β γ : Type} (r : Res β) (f : β → γ) : r.map f = r.bind fun a => .ok (f a) := rfl
+
+@[simp] theorem Res.bind_ok' {β γ : Type} (a : β) (f : β → Res γ) : (Res.ok a).bind f = f a := rfl
+@[simp] theorem Res.bind_unavailable' {β γ : Type} (f : β → Res γ) :
+    (Res.unavailable : Res β).bind f = .unavailable := rfl
+@[simp] theorem Res.bind_crash' {β γ : Type} (c : String) (f : β → Res γ) :
+    (Res.crash c : Res β).bind f = .crash c := rfl
+
+theorem Triple.bindInt {γ : Type} {e : RefEnv α} {need gives gives' : List RPath} {a : Act α (Val α)}
+    {k : Int → Act α γ} {rv : Res (Val α)} {rk : Int → Res γ}
+    (ha : Triple e need a rv gives)
+    (hk : ∀ i, rv.bind Val.int? = .ok i → Triple e (gives ++ need) (k i) (rk i) gives') :
+    Triple e need (a.bindInt k) ((rv.bind Val.int?).bind rk) gives' := by
+  have := Triple.bind (rk := fun v => (Val.int? v).bind rk) ha (fun v hv =>
+    Triple.bind (Triple.pure e (gives ++ need) v.int?) (fun i hi => hk i (by rw [hv]; exact hi)))
+  exact Triple.congr this (Res.bind_assoc _ _ _).symm
+
+theorem Triple.bindNum {γ : Type} {e : RefEnv α} {need gives gives' : List RPath} {a : Act α (Val α)}
+    {k : α → Act α γ} {rv : Res (Val α)} {rk : α → Res γ}
+    (ha : Triple e need a rv gives)
+    (hk : ∀ i, rv.bind Val.num? = .ok i → Triple e (gives ++ need) (k i) (rk i) gives') :
+    Triple e need (a.bindNum k) ((rv.bind Val.num?).bind rk) gives' := by
+  have := Triple.bind (rk := fun v => (Val.num? v).bind rk) ha (fun v hv =>
+    Triple.bind (Triple.pure e (gives ++ need) v.num?) (fun i hi => hk i (by rw [hv]; exact hi)))
+  exact Triple.congr this (Res.bind_assoc _ _ _).symm
+
+theorem refField_prim (e : RefEnv α) (p : RPath) (f : Field) (hf : f.rank = 0) :
+    refField e p f = refPrim e p f := by
+  cases f <;> first | rfl | (simp [Field.rank] at hf)
+
+theorem Triple.getPrim (e : RefEnv α) (p : RPath) (f : Field) (hf : f.rank = 0) (need : List RPath)
+    (hp : p ∈ need) : Triple e need (getPrim (α := α) e.w p f) (refPrim e p f) [] := by
+  unfold OomdModel.CgStats.getPrim
+  refine Triple.memo p f (Triple.read e need _ _ ?_) (refField_prim e p f hf)
+  intro st hc hn
+  obtain ⟨c, hcx⟩ := hn p hp
+  simp [hcx, refPrim, (hc.ctx p c hcx).1]
+
+theorem int_map_bind (r : Res Int) : (r.map (Val.int (α := α))).bind Val.int? = r := by
+  cases r <;> rfl
+
+theorem num_map_bind (r : Res α) : (r.map (Val.num (α := α))).bind Val.num? = r := by
+  cases r <;> rfl
+
+theorem Triple.getRaw (e : RefEnv α) (p : RPath) (need : List RPath) (hp : p ∈ need) :
+    Triple e need (getRaw (α := α) e.w p) ((refRaw e p).map .int) [] := by
+  unfold OomdModel.CgStats.getRaw
+  have h := Triple.bindInt (Triple.getPrim e p .currentUsage rfl need hp) (fun cur _ =>
+    Triple.bindInt (Triple.getPrim e p .memoryMin rfl ([] ++ need) (by simpa using hp)) (fun mn _ =>
+      Triple.bindInt (Triple.getPrim e p .memoryLow rfl ([] ++ ([] ++ need)) (by simpa using hp)) (fun lo _ =>
+        Triple.pure e _ (Res.ok (Val.int (α := α) (rawProtection cur mn lo))))))
+  exact Triple.congr h (by simp only [refRaw, refInt, Res.map_def, Res.bind_assoc, Res.bind_ok'])
+
+theorem Triple.weaken' {β : Type} {e : RefEnv α} {need need' gives : List RPath} {a : Act α β} {r : Res β}
+    (h : Triple e need a r gives) (hsub : ∀ q ∈ need, q ∈ need') : Triple e need' a r gives :=
+  fun st hc hn => h st hc (fun q hq => hn q (hsub q hq))
+
+theorem Res.bind_ok_right {β : Type} (r : Res β) : (r.bind fun a => Res.ok a) = r := by
+  cases r <;> rfl
+
+theorem refRaw_unavailable (e : RefEnv α) (q : RPath) (h : e.w.openDir q = none) :
+    refRaw e q = .unavailable := by
+  simp [refRaw, refInt, refPrim, h]
+
+theorem Triple.sumRaw (e : RefEnv α) (pp : RPath) (names : List Str) (need : List RPath) :
+    Triple e need (sumRaw (α := α) e.w pp names) (refSumRaw e pp names) [] := by
+  induction names with
+  | nil => exact Triple.pure e need _
+  | cons nm rest ih =>
+    unfold OomdModel.CgStats.sumRaw refSumRaw
+    refine Triple.bind (gives := []) ?_ (fun r _ => Triple.bind (gives := []) ih (fun sum _ => Triple.pure e _ _))
+    cases ho : e.w.openDir (nm :: pp) with
+    | none =>
+      rw [refRaw_unavailable e _ ho]
+      exact Triple.getD 0 (Triple.pure e need .unavailable)
+    | some inc =>
+      have h := Triple.getD 0 (Triple.bind ((Triple.addToCache e (nm :: pp)).weaken' (need' := need) (by simp))
+        (fun _ _ => Triple.bindInt (Triple.getRaw e (nm :: pp) ([nm :: pp] ++ need) (by simp))
+          (fun r _ => Triple.pure e _ (Res.ok r))))
+      refine Triple.congr h ?_
+      simp only [refOpen, ho, Res.bind_ok', int_map_bind, Res.bind_ok_right]
+
+theorem Triple.getEffSwapMax (e : RefEnv α) (p : RPath) : ∀ (need : List RPath), p ∈ need →
+    Triple e need (getEffSwapMax (α := α) e.w p) ((refEffSwapMax e p).map .int) [] := by
+  induction p with
+  | nil =>
+    intro need _
+    unfold OomdModel.CgStats.getEffSwapMax
+    refine Triple.memo [] .effSwapMax (Triple.read e need _ _ ?_) rfl
+    intro st hc _
+    simp [refEffSwapMax, hc.sys, Res.map, Res.bind]
+  | cons n ps ih =>
+    intro need hp
+    unfold OomdModel.CgStats.getEffSwapMax
+    refine Triple.memo (gives := []) (n :: ps) .effSwapMax ?_ rfl
+    have h := Triple.bind ((Triple.addToCache e ps).weaken' (need' := need) (by simp))
+      (fun _ _ => Triple.bindInt (ih ([ps] ++ need) (by simp))
+        (fun pm _ => Triple.bindInt (Triple.getPrim e (n :: ps) .swapMax rfl ([] ++ ([ps] ++ need)) (by simp [hp]))
+          (fun sm _ => Triple.pure e _ (Res.ok (Val.int (α := α) (min pm sm))))))
+    refine Triple.congr h ?_
+    rw [int_map_bind]
+    simp only [refEffSwapMax, refInt, Res.map_def, Res.bind_assoc, Res.bind_ok']
+
+theorem Triple.getEffSwapFree (e : RefEnv α) (p : RPath) : ∀ (need : List RPath), p ∈ need →
+    Triple e need (getEffSwapFree (α := α) e.w p) ((refEffSwapFree e p).map .int) [] := by
+  induction p with
+  | nil =>
+    intro need _
+    unfold OomdModel.CgStats.getEffSwapFree
+    refine Triple.memo [] .effSwapFree (Triple.read e need _ _ ?_) rfl
+    intro st hc _
+    simp [refEffSwapFree, hc.sys, Res.map, Res.bind]
+  | cons n ps ih =>
+    intro need hp
+    unfold OomdModel.CgStats.getEffSwapFree
+    refine Triple.memo (gives := []) (n :: ps) .effSwapFree ?_ rfl
+    have h := Triple.bindInt (Triple.getPrim e (n :: ps) .swapMax rfl need hp)
+      (fun sm _ => Triple.bindInt (Triple.getPrim e (n :: ps) .swapUsage rfl ([] ++ need) (by simpa using hp))
+        (fun su _ => Triple.bind ((Triple.addToCache e ps).weaken' (need' := [] ++ ([] ++ need)) (by simp))
+          (fun _ _ => Triple.bindInt (ih ([ps] ++ ([] ++ ([] ++ need))) (by simp))
+            (fun pf _ => Triple.pure e _ (Res.ok (Val.int (α := α) (min pf (sm - su))))))))
+    refine Triple.congr h ?_
+    simp only [int_map_bind]
+    simp only [refEffSwapFree, refInt, Res.map_def, Res.bind_assoc, Res.bind_ok']
+
+theorem Triple.getEffSwapUtil (e : RefEnv α) (p : RPath) : ∀ (need : List RPath), p ∈ need →
+    Triple e need (getEffSwapUtil (α := α) e.w p) ((refEffSwapUtil e p).map .num) [] := by
+  induction p with
+  | nil =>
+    intro need _
+    unfold OomdModel.CgStats.getEffSwapUtil
+    refine Triple.memo [] .effSwapUtil (Triple.read e need _ _ ?_) rfl
+    intro st hc _
+    simp only [refEffSwapUtil, hc.sys]
+    split <;> rfl
+  | cons n ps ih =>
+    intro need hp
+    unfold OomdModel.CgStats.getEffSwapUtil
+    refine Triple.memo (gives := []) (n :: ps) .effSwapUtil ?_ rfl
+    refine Triple.congr (r := ((refPrim e (n :: ps) .swapMax).bind Val.int?).bind fun sm =>
+        if sm = 0 then Res.ok (Val.num (zero : α)) else
+        ((refPrim e (n :: ps) .swapUsage).bind Val.int?).bind fun su => (refOpen e ps).bind fun _ =>
+          (((refEffSwapUtil e ps).map Val.num).bind Val.num?).bind fun pu =>
+            Res.ok (Val.num (nmax pu (localUtil su sm)))) ?_ ?_
+    · refine Triple.bindInt (Triple.getPrim e (n :: ps) .swapMax rfl need hp) (fun sm _ => ?_)
+      by_cases h0 : sm = 0
+      · simp only [h0, if_true]; exact Triple.pure e _ _
+      · simp only [h0, if_false]
+        exact Triple.bindInt (Triple.getPrim e (n :: ps) .swapUsage rfl ([] ++ need) (by simpa using hp))
+          (fun su _ => Triple.bind ((Triple.addToCache e ps).weaken' (need' := [] ++ ([] ++ need)) (by simp))
+            (fun _ _ => Triple.bindNum (ih ([ps] ++ ([] ++ ([] ++ need))) (by simp))
+              (fun pu _ => Triple.pure e _ (Res.ok (Val.num (nmax pu (localUtil su sm)))))))
+    · simp only [num_map_bind]
+      simp only [refEffSwapUtil, refInt, Res.map_def, Res.bind_assoc]
+      congr 1
+      funext v
+      congr 1
+      funext sm
+      by_cases h0 : sm = 0
+      · simp [h0]
+      · simp only [h0, if_false, Res.bind_assoc, Res.bind_ok']
+
+theorem refPrim_currentUsage_int (e : RefEnv α) (p : RPath) :
+    ((refPrim e p .currentUsage).bind Val.int?).map Val.int = refPrim e p .currentUsage := by
+  unfold refPrim
+  cases e.w.openDir p with
+  | none => rfl
+  | some inc =>
+    simp only [readPrim]
+    generalize (if p.isEmpty = true then procRes e.w "meminfo" readRootMemcurrent
+      else fileRes e.w inc fMemCurrent readFirstLineInt) = r
+    cases r <;> rfl
+
+theorem Triple.getMemProt (e : RefEnv α) : ∀ (p : RPath) (need : List RPath), p ∈ need →
+    Triple e need (getMemProt (α := α) e.w p) ((refMemProt e p).map .int) []
+  | [], need, hp => by
+    unfold OomdModel.CgStats.getMemProt
+    refine Triple.memo (gives := []) [] .memoryProtection
+      (Triple.congr (Triple.getPrim e [] .currentUsage rfl need hp) ?_) rfl
+    simp only [refMemProt, refInt]
+    exact (refPrim_currentUsage_int e []).symm
+  | [n], need, hp => by
+    unfold OomdModel.CgStats.getMemProt
+    exact Triple.memo (gives := []) [n] .memoryProtection (Triple.getRaw e [n] need hp) rfl
+  | n :: m :: ps, need, hp => by
+    have ih := Triple.getMemProt e (m :: ps)
+    unfold OomdModel.CgStats.getMemProt
+    refine Triple.memo (gives := []) (n :: m :: ps) .memoryProtection ?_ rfl
+    refine Triple.congr (r := (refOpen e (m :: ps)).bind fun _ =>
+        (refPrim e (m :: ps) .children).bind fun cv => (Val.strs? cv).bind fun names =>
+        (refSumRaw e (m :: ps) names).bind fun sum =>
+        if sum = 0 then Res.ok (Val.int (α := α) 0) else
+        (((refRaw e (n :: m :: ps)).map (Val.int (α := α))).bind Val.int?).bind fun raw =>
+        (((refMemProt e (m :: ps)).map (Val.int (α := α))).bind Val.int?).bind fun pp =>
+          Res.ok (Val.int (normProtection (α := α) raw pp sum))) ?_ ?_
+    · refine Triple.bind ((Triple.addToCache e (m :: ps)).weaken' (need' := need) (by simp)) (fun _ _ => ?_)
+      refine Triple.bind (gives := []) (Triple.getPrim e (m :: ps) .children rfl _ (by simp)) (fun cv _ => ?_)
+      refine Triple.bind (gives := []) (Triple.pure e _ cv.strs?) (fun names _ => ?_)
+      refine Triple.bind (gives := []) (Triple.sumRaw e (m :: ps) names _) (fun sum _ => ?_)
+      by_cases h0 : sum = 0
+      · simp only [h0, if_true]; exact Triple.pure e _ _
+      · simp only [h0, if_false]
+        exact Triple.bindInt (Triple.getRaw e (n :: m :: ps) _ (by simp [hp]))
+          (fun raw _ => Triple.bindInt (ih _ (by simp))
+            (fun pp _ => Triple.pure e _ (Res.ok (Val.int (normProtection (α := α) raw pp sum)))))
+    · simp only [int_map_bind]
+      simp only [refMemProt, refChildren, Res.map_def, Res.bind_assoc]
+      congr 1
+      funext _
+      congr 1
+      funext cv
+      congr 1
+      funext names
+      congr 1
+      funext sum
+      by_cases h0 : sum = 0
+      · simp [h0]
+      · simp only [h0, if_false, Res.bind_assoc, Res.bind_ok']
+
+theorem Triple.getIoCostCum (e : RefEnv α) (p : RPath) (need : List RPath) (hp : p ∈ need) :
+    Triple e need (getIoCostCum e.cfg e.w p) ((refIoCostCum e p).map .num) [] := by
+  unfold OomdModel.CgStats.getIoCostCum
+  refine Triple.memo (gives := []) p .ioCostCum ?_ rfl
+  have h := Triple.bind (gives := []) (Triple.getPrim e p .ioStat rfl need hp) (fun v _ =>
+    Triple.bind (gives := []) (Triple.pure e _ v.io?) (fun stats _ =>
+      Triple.pure e _ (Res.ok (Val.num (ioCost e.cfg stats)))))
+  exact Triple.congr h (by simp only [refIoCostCum, Res.map_def, Res.bind_assoc, Res.bind_ok'])
+
+theorem Triple.getPgScanCum (e : RefEnv α) (p : RPath) (need : List RPath) (hp : p ∈ need) :
+    Triple e need (getPgScanCum (α := α) e.w p) ((refPgScanCum e p).map .int) [] := by
+  unfold OomdModel.CgStats.getPgScanCum
+  refine Triple.memo (gives := []) p .pgScanCum ?_ rfl
+  have h := Triple.bind (gives := []) (Triple.getPrim e p .memoryStat rfl need hp) (fun v _ =>
+    Triple.bind (gives := []) (Triple.pure e _ v.kv?) (fun m _ =>
+      Triple.pure e _ ((pgscanOf m).map (Val.int (α := α)))))
+  exact Triple.congr h (by simp only [refPgScanCum, Res.map_def, Res.bind_assoc])
+
+theorem archOf_coh {e : RefEnv α} {st : OSt α} (hc : Coh e st) (p : RPath) : archOf st p = e.arch p := by
+  unfold archOf
+  cases hp : st.ctxs p with
+  | none => exact (hc.fresh p hp).symm
+  | some c => exact (hc.ctx p c hp).2.1
+
+theorem Triple.getAverageUsage (e : RefEnv α) (p : RPath) (need : List RPath) (hp : p ∈ need) :
+    Triple e need (getAverageUsage e.cfg e.w p) ((refAverageUsage e p).map .int) [] := by
+  unfold OomdModel.CgStats.getAverageUsage
+  refine Triple.memo (gives := []) p .averageUsage ?_ rfl
+  have h := Triple.bindInt (Triple.getPrim e p .currentUsage rfl need hp) (fun cur _ =>
+    Triple.read e _ (fun st => Res.ok (Val.int (α := α) (avgStep e.cfg.decay ((archOf st p).avg.getD 0) cur)))
+      (Res.ok (Val.int (α := α) (avgStep e.cfg.decay ((e.arch p).avg.getD 0) cur)))
+      (fun st hc _ => by simp only [archOf_coh hc p]))
+  exact Triple.congr h (by simp only [refAverageUsage, refInt, Res.map_def, Res.bind_assoc, Res.bind_ok'])
+
+theorem Triple.getIoCostRate (e : RefEnv α) (p : RPath) (need : List RPath) (hp : p ∈ need) :
+    Triple e need (getIoCostRate e.cfg e.w p) ((refIoCostRate e p).map .num) [] := by
+  unfold OomdModel.CgStats.getIoCostRate
+  refine Triple.memo (gives := []) p .ioCostRate ?_ rfl
+  have h := Triple.bindNum (Triple.getIoCostCum e p need hp) (fun c _ =>
+    Triple.read e _ (fun st => Res.ok (Val.num (ioRateOf c (archOf st p).io)))
+      (Res.ok (Val.num (ioRateOf c (e.arch p).io)))
+      (fun st hc _ => by simp only [archOf_coh hc p]))
+  refine Triple.congr h ?_
+  rw [num_map_bind]
+  simp only [refIoCostRate, Res.map_def, Res.bind_assoc, Res.bind_ok']
+
+theorem Triple.getPgScanRate (e : RefEnv α) (p : RPath) (need : List RPath) (hp : p ∈ need) :
+    Triple e need (getPgScanRate (α := α) e.w p) ((refPgScanRate e p).map .int) [] := by
+  unfold OomdModel.CgStats.getPgScanRate
+  refine Triple.memo (gives := []) p .pgScanRate ?_ rfl
+  have h := Triple.bindInt (Triple.getPgScanCum e p need hp) (fun c _ =>
+    Triple.read e _ (fun st => (pgRateOf c (archOf st p).pg).map (Val.int (α := α)))
+      ((pgRateOf c (e.arch p).pg).map (Val.int (α := α)))
+      (fun st hc _ => by simp only [archOf_coh hc p]))
+  refine Triple.congr h ?_
+  rw [int_map_bind]
+  simp only [refPgScanRate, Res.map_def, Res.bind_assoc]
+
+/-- every cached accessor returns the reference value on a coherent state -/
+theorem Triple.getField (e : RefEnv α) (p : RPath) (f : Field) (need : List RPath) (hp : p ∈ need) :
+    Triple e need (getField e.cfg e.w p f) (refField e p f) [] := by
+  cases f
+  case effSwapMax => exact Triple.getEffSwapMax e p need hp
+  case effSwapFree => exact Triple.getEffSwapFree e p need hp
+  case effSwapUtil => exact Triple.getEffSwapUtil e p need hp
+  case memoryProtection => exact Triple.getMemProt e p need hp
+  case ioCostCum => exact Triple.getIoCostCum e p need hp
+  case pgScanCum => exact Triple.getPgScanCum e p need hp
+  case averageUsage => exact Triple.getAverageUsage e p need hp
+  case ioCostRate => exact Triple.getIoCostRate e p need hp
+  case pgScanRate => exact Triple.getPgScanRate e p need hp
+  all_goals exact Triple.getPrim e p _ rfl need hp
+
+theorem Triple.statKey (e : RefEnv α) (p : RPath) (key : String) (need : List RPath) (hp : p ∈ need) :
+    Triple e need (statKey (α := α) e.w p key) (refStatKey e p key) [] := by
+  unfold OomdModel.CgStats.statKey
+  have h := Triple.bind (gives := []) (Triple.getPrim e p .memoryStat rfl need hp) (fun v _ =>
+    Triple.bind (gives := []) (Triple.pure e _ v.kv?) (fun m _ =>
+      Triple.pure e _ ((statOf m key).map (Val.int (α := α)))))
+  exact Triple.congr h (by simp only [refStatKey, Res.map_def, Res.bind_assoc])
+
+/-- every public accessor returns the reference value on a coherent state -/
+theorem Triple.getAcc (e : RefEnv α) (p : RPath) (a : Acc) (need : List RPath) (hp : p ∈ need) :
+    Triple e need (getAcc e.cfg e.w p a) (refAcc e p a) [] := by
+  cases a with
+  | field f => exact Triple.getField e p f need hp
+  | anon => exact Triple.statKey e p _ need hp
+  | file => exact Triple.statKey e p _ need hp
+  | shmem => exact Triple.statKey e p _ need hp
+  | effUsage scale adj =>
+    have h := Triple.bindInt (Triple.getPrim e p .currentUsage rfl need hp) (fun cur _ =>
+      Triple.bindInt (Triple.getMemProt e p ([] ++ need) (by simpa using hp)) (fun prot _ =>
+        Triple.pure e _ (Res.ok (Val.int (α := α) (cur * scale - prot + adj)))))
+    refine Triple.congr h ?_
+    simp only [int_map_bind]
+    simp only [refAcc, refInt]
+  | growth =>
+    refine Triple.congr (r := ((refPrim e p .currentUsage).bind Val.int?).bind fun cur =>
+      (((refAverageUsage e p).map (Val.int (α := α))).bind Val.int?).bind fun avg =>
+        if avg = 0 then Res.ok (Val.num (zero : α)) else Res.ok (Val.num (div (ofInt cur) (ofInt avg)))) ?_ ?_
+    · refine Triple.bindInt (Triple.getPrim e p .currentUsage rfl need hp) (fun cur _ => ?_)
+      refine Triple.bindInt (Triple.getAverageUsage e p ([] ++ need) (by simpa using hp)) (fun avg _ => ?_)
+      by_cases h0 : avg = 0
+      · simp only [h0, if_true]; exact Triple.pure e _ _
+      · simp only [h0, if_false]; exact Triple.pure e _ _
+    · simp only [int_map_bind]
+      simp only [refAcc, refInt]
+
+end Sound
+
+/-! ## ticks: `refresh`, obtained values, re-created cgroups -/
+
+section Ticks
+variable {α : Type} [Num α]
+
+/-- after `refresh` nothing is cached -/
+theorem cached_refresh (w : World) (st : OSt α) (p : RPath) (f : Field) : cached (refresh w st) p f = none := by
+  unfold cached refresh
+  simp only
+  cases hp : st.ctxs p with
+  | none => simp
+  | some c =>
+    simp only [Option.bind_some]
+    unfold refreshCtx
+    split <;> simp
+
+/-- a context whose held directory is no longer a valid cgroup is dropped -/
+theorem refresh_drops (w : World) (st : OSt α) (p : RPath) (c : Ctx α) (hc : st.ctxs p = some c)
+    (hgone : w.file c.dir fControllers = none) : (refresh w st).ctxs p = none := by
+  simp [refresh, hc, refreshCtx, hgone]
+
+/-- a context whose directory is still valid survives, keeps its directory, and archives exactly what
+was obtained during the tick that ends -/
+theorem refresh_keeps (w : World) (st : OSt α) (p : RPath) (c : Ctx α) (hc : st.ctxs p = some c)
+    (hvalid : (w.file c.dir fControllers).isSome) :
+    ∃ c', (refresh w st).ctxs p = some c' ∧ c'.dir = c.dir ∧
+      c'.arch.avg = ((cached st p .averageUsage).bind fun v => v.int?.toOption) ∧
+      c'.arch.io = ((cached st p .ioCostCum).bind fun v => v.num?.toOption) ∧
+      c'.arch.pg = ((cached st p .pgScanCum).bind fun v => v.int?.toOption) := by
+  refine ⟨{ dir := c.dir, data := fun _ => none,
+            arch := { avg := (c.data .averageUsage).bind fun v => v.int?.toOption
+                      io := (c.data .ioCostCum).bind fun v => v.num?.toOption
+                      pg := (c.data .pgScanCum).bind fun v => v.int?.toOption } }, ?_, rfl, ?_, ?_, ?_⟩
+  · simp [refresh, hc, refreshCtx, hvalid]
+  · simp [cached, hc]
+  · simp [cached, hc]
+  · simp [cached, hc]
+
+/-- the initial state (no context) is coherent with every world, as long as the reference is asked
+with empty archives -/
+theorem coh_init (e : RefEnv α) (hs : e.sys = SysCtx.init) (ha : ∀ p, e.arch p = Arch.empty) :
+    Coh e (OSt.init : OSt α) :=
+  ⟨hs.symm, fun p c h => by simp [OSt.init] at h, fun p _ => ha p⟩
+
+/-- the state right after `refresh` is coherent with the world as it is now, when the reference is
+asked with the archives `refresh` has just taken and when a still-valid held directory is the
+directory at its path (a property of the kernel: a live cgroup directory has one path) -/
+theorem coh_refresh (w : World) (st : OSt α) (cfg : Params α)
+    (hw : ∀ p c, st.ctxs p = some c → (w.file c.dir fControllers).isSome → w.openDir p = some c.dir) :
+    Coh { w := w, sys := st.sys, cfg := cfg, arch := archOf (refresh w st) } (refresh w st) := by
+  refine ⟨rfl, ?_, ?_⟩
+  · intro p c' hc'
+    have hcached : ∀ f, c'.data f = none := by
+      intro f
+      have := cached_refresh w st p f
+      simpa [cached, hc'] using this
+    refine ⟨?_, by simp [archOf, hc'], fun f v hv => by rw [hcached f] at hv; cases hv⟩
+    cases hp : st.ctxs p with
+    | none => simp [refresh, hp] at hc'
+    | some c =>
+      by_cases hv : (w.file c.dir fControllers).isSome
+      · obtain ⟨c'', h1, h2, _⟩ := refresh_keeps w st p c hp hv
+        rw [hc'] at h1
+        injection h1 with h1
+        subst h1
+        rw [h2]
+        exact hw p c hp hv
+      · have : w.file c.dir fControllers = none := by
+          cases h : w.file c.dir fControllers with
+          | none => rfl
+          | some x => simp [h] at hv
+        rw [refresh_drops w st p c hp this] at hc'
+        cases hc'
+  · intro p hp
+    simp [archOf, hp]
+
+theorem le_addChildStep (w : World) (dir : Nat) (p : RPath) (acc : List Str × OSt α) (nm : Str) :
+    Le acc.2 (addChildStep w dir p acc nm).2 := by
+  unfold addChildStep
+  cases w.openChild dir nm with
+  | none => exact Le.refl _
+  | some inc =>
+    simp only
+    cases hq : acc.2.ctxs (nm :: p) with
+    | some _ => exact Le.refl _
+    | none =>
+      refine ⟨rfl, ?_⟩
+      intro q cq hcq
+      have : q ≠ nm :: p := by intro e; subst e; rw [hq] at hcq; cases hcq
+      exact ⟨cq, by simp [this, hcq], rfl, rfl, fun _ _ h => h⟩
+
+theorem le_addChildFold (w : World) (dir : Nat) (p : RPath) (names : List Str) :
+    ∀ acc : List Str × OSt α, Le acc.2 (names.foldl (addChildStep w dir p) acc).2 := by
+  induction names with
+  | nil => intro acc; exact Le.refl _
+  | cons nm rest ih =>
+    intro acc
+    simp only [List.foldl_cons]
+    exact Le.trans (le_addChildStep w dir p acc nm) (ih _)
+
+theorem infl_addChildren (w : World) (p : RPath) : Infl (addChildren (α := α) w p) := by
+  unfold addChildren
+  refine infl_bind (infl_getPrim w p _) fun cv => infl_bind (infl_pure _) fun names => ?_
+  intro st
+  cases hp : st.ctxs p with
+  | none => simp only [hp]; exact Le.refl st
+  | some c => simp only [hp]; exact le_addChildFold w c.dir p names ([], st)
+
+/-- when an accessor of an existing context returns a value, that value is cached -/
+theorem memo_ok_cached (p : RPath) (f : Field) {compute : Act α (Val α)} (hc : Infl compute) (st : OSt α)
+    (hp : Has st p) (v : Val α) (h : (memo p f compute st).1 = .ok v) : cached (memo p f compute st).2 p f = some v := by
+  unfold memo at h ⊢
+  cases hcache : cached st p f with
+  | some x =>
+    simp only [hcache] at h ⊢
+    injection h with h
+    subst h
+    rfl
+  | none =>
+    simp only [hcache] at h ⊢
+    have hle := hc st
+    cases hr : compute st with
+    | mk r st1 =>
+      rw [hr] at hle
+      simp only [hr] at h ⊢
+      cases r with
+      | ok x =>
+        simp only at h ⊢
+        injection h with h
+        subst h
+        obtain ⟨c1, hc1⟩ := has_of_le hle hp
+        have hc1' : st1.ctxs p = some c1 := hc1
+        simp [cached, setField, hc1']
+      | unavailable => simp at h
+      | crash c => simp at h
+
+/-- every cached accessor is an instance of the `PROXY` macro -/
+theorem getField_is_memo (cfg : Params α) (w : World) (p : RPath) (f : Field) :
+    ∃ compute, getField cfg w p f = memo p f compute := by
+  cases f
+  case effSwapMax => cases p <;> exact ⟨_, by unfold getField getEffSwapMax; rfl⟩
+  case effSwapFree => cases p <;> exact ⟨_, by unfold getField getEffSwapFree; rfl⟩
+  case effSwapUtil => cases p <;> exact ⟨_, by unfold getField getEffSwapUtil; rfl⟩
+  case memoryProtection =>
+    rcases p with _ | ⟨n, _ | ⟨m, ps⟩⟩ <;> exact ⟨_, by unfold getField getMemProt; rfl⟩
+  all_goals exact ⟨_, rfl⟩
+
+theorem setField_has (st : OSt α) (p q : RPath) (f : Field) (v : Val α) : Has (setField st p f v) q ↔ Has st q := by
+  unfold Has setField
+  by_cases e : q = p
+  · subst e
+    cases h : st.ctxs q <;> simp [h]
+  · simp [e]
+
+/-- a value returned by an accessor of an existing context is in the cache afterwards -/
+theorem getField_ok_cached (cfg : Params α) (w : World) (p : RPath) (f : Field) (st : OSt α) (v : Val α)
+    (hp : Has st p) (h : (getField cfg w p f st).1 = .ok v) : cached (getField cfg w p f st).2 p f = some v := by
+  have hp' : Has (getField cfg w p f st).2 p := has_of_le (infl_getField cfg w p f st) hp
+  obtain ⟨compute, hm⟩ := getField_is_memo cfg w p f
+  rw [hm] at h hp' ⊢
+  unfold memo at h hp' ⊢
+  cases hcache : cached st p f with
+  | some x =>
+    simp only [hcache] at h ⊢
+    injection h with h
+    subst h
+    rfl
+  | none =>
+    simp only [hcache] at h hp' ⊢
+    cases hr : compute st with
+    | mk r st1 =>
+      simp only [hr] at h hp' ⊢
+      cases r with
+      | ok x =>
+        simp only at h hp' ⊢
+        injection h with h
+        subst h
+        obtain ⟨c1, hc1⟩ := (setField_has st1 p p f x).1 hp'
+        simp [cached, setField, hc1]
+      | unavailable => simp at h
+      | crash c => simp at h
+
+end Ticks
 
 end OomdModel.CgStats
